@@ -85,8 +85,7 @@ theorem sliceCast_text (lhs rhs typ cast : String) :
 type (`type Names []string`) are slices for the builder too (the repaired DESIGN §5 #17; before, they
 fell through to a plain assignment that shares the backing array). -/
 example : ({ tys := #[{ kind := .named, str := "p.Names", name := "Names", isSlice := true, elem := 1 }],
-             assignable := fun _ _ => true, convertible := fun _ _ => true, lookup := fun _ _ => .none,
-             scopeHas := fun _ => true, pkgPath := "p", imports := [], stringTy := 0 } : Env).isSliceType 0 = true := by
+             assignable := fun _ _ => true, convertible := fun _ _ => true, lookup := fun _ _ => .none, pkgPath := "p", imports := [], stringTy := 0 } : Env).isSliceType 0 = true := by
   decide
 
 end Convergen.Props.C16
